@@ -34,6 +34,7 @@ def projects(draw: Any, cycles: bool = False, star_consumers: bool = False) -> D
             name = ('K%d' if kind == 'class' else 'f%d') % new_id()
             d = {'name': name, 'id': nid[0], 'kind': kind, 'bases': [], 'members': ['m'] if kind == 'class' and draw(st.integers(0, 3)) > 0 else [],
                  'nested': bool(kind == 'class' and draw(st.integers(0, 2)) == 0),
+                 'exc': bool(kind == 'class' and draw(st.integers(0, 2)) == 0),   # a root class derives from Exception: every class below it is an exception class
                  # an attribute 't' set on the instance in __init__ ('ivar') or in the class body ('cvar'): a class variable that
                  # overrides an inherited instance variable is documented as an instance variable, whatever the processing order
                  'attr': (draw(st.sampled_from([None, None, 'ivar', 'cvar'])) if not attrchain else ('cvar' if any(x['kind'] == 'class' for _m, x in all_defs) else 'ivar')) if kind == 'class' else None}
@@ -124,7 +125,7 @@ def to_files(proj: Dict[str, Any]) -> Tuple[Dict[str, str], Dict[str, Any]]:
         for d in im['defs']:
             defs[d['name']] = (im['mod'], d)
             if d['kind'] == 'class':
-                lines.append('class %s%s:' % (d['name'], '(' + ', '.join(b[1] for b in d['bases']) + ')' if d['bases'] else ''))
+                lines.append('class %s%s:' % (d['name'], '(' + ', '.join(b[1] for b in d['bases']) + ')' if d['bases'] else ('(Exception)' if d.get('exc') else '')))
                 if proj['extra'].get('docformat'):
                     lines += ['    """ID:%d' % d['id'], '', '    :ivar fx%d: declared by a field' % d['id'], '    """']
                 else:
